@@ -22,15 +22,16 @@ MODELLED = ("utils.default_is_dynamic over the lexer's tokens, Question.xml_inst
 ASSUMPTIONS = ["re.Scanner compiles the patterns without the UNICODE flag: \\d and \\s are the ASCII classes (observed by L.scan on NBSP, U+2000, U+001C, Arabic-Indic digits)",
                "Python's re engine (leftmost-alternative, greedy, backtracking) implements the 26 patterns as written out in Model/Scanner.v (checked by L.scan, not proved)"]
 
-TYPES = ["text", "integer", "decimal", "date", "dateTime", "time", "select_one yn", "geopoint", "calculate", "note", "barcode"]
+TYPES = ["text", "integer", "decimal", "date", "dateTime", "time", "select_one yn", "geopoint", "calculate", "note", "barcode", "image"]
 
 LITERALS = {
     "text": ["abc", "hello world", "a-b", "x_y", "é", "yes", "5", "a.b", "it's", "Don't know", "N/A", "mod", "a, b", "#tag"],
     "integer": ["5", "0", "-5", "12345"],
     "decimal": ["1.5", "-0.25", ".5", "3."],
     "date": ["2020-01-02", "1999-12-31", "-0044-03-15"],
-    "dateTime": ["2020-01-02T10:00:00", "2020-01-02T10:00:00Z", "2020-01-02T10:00:00+02:00"],
-    "time": ["10:00:00", "23:59:59Z"],
+    "dateTime": ["2020-01-02T10:00:00", "2020-01-02T10:00:00Z", "2020-01-02T10:00:00+02:00", "2020-01-02T10:00:00.123+02:00", "2020-01-02T10:00:00.5Z", "2020-01-02T10:00:00.25-05:30"],
+    "time": ["10:00:00", "23:59:59Z", "10:00:00.25", "10:00:00.5+01:00"],
+    "image": ["pic.jpg", "photo_1.png", "jr://images/x.png"],      # a file name: written with the images prefix (unless it has it)
     "select_one yn": ["yes", "no"],
     "geopoint": ["10.5 -20.25 0 0", "-1.2 36.8"],
     "barcode": ["0123456789"],
@@ -192,6 +193,8 @@ def dtree_coq(tree):
         if t[0] == "Q":
             _, name, ty, d = t
             dyn = bool(d) and bool(default_is_dynamic(d, bare(ty)))          # tied by op L.default_is_dynamic
+            if bare(ty) == "image":
+                return f"(Qn {cstr(name)} (image_default {cstr(d or '')} {cbool(dyn)}) {cbool(dyn)})"
             return f"(Qn {cstr(name)} {cstr(d or '')} {cbool(dyn)})"
         c = "Gp" if t[0] == "G" else "Rp"
         return f"({c} {cstr(t[1])} {clist([go(k) for k in t[2]], 'el')})"
@@ -447,7 +450,8 @@ def audit(tree, form, expect_trig, xform):
             if texts != {""} or svs:
                 probs.append(f"{path}: no default, yet node text {texts} / {len(svs)} setvalue(s)")
             return
-        static_ok = texts == {d} and not svs
+        d_lit = d if ty != "image" or d.startswith("jr://images/") else "jr://images/" + d
+        static_ok = texts == {d_lit} and not svs
         dyn_ok = texts == {""} and len(svs) == 1
         if not (static_ok or dyn_ok):
             probs.append(f"{path}: default {d!r} gives node texts {sorted(texts)} and {len(svs)} setvalue(s) — neither the literal only nor exactly one setvalue")
